@@ -564,7 +564,9 @@ impl Gen<'_> {
             Some(i) => {
                 let (owner, b, k) = (self.sim.ups[i].owner, self.sim.ups[i].bucket.clone(), self.sim.ups[i].key.clone());
                 let w = if self.rng.chance(4, 5) { owner } else { self.who() };
-                if !self.clean && self.f_mpabuse && self.rng.chance(1, 8) {
+                // (since 6bf591c an upload exists only under its own bucket and key — `NoSuchUpload` under any other, nothing
+                // changes: a clean history may address it under another one)
+                if self.f_mpabuse && self.rng.chance(1, 8) {
                     (w, self.bucket(true), self.key())
                 } else {
                     (w, b, k)
@@ -572,6 +574,11 @@ impl Gen<'_> {
             }
             None => (self.who(), self.bucket(true), self.key()),
         }
+    }
+
+    /// is upload `i` addressed under the bucket and key it was created for? (otherwise the request changes nothing)
+    fn bound(&self, i: usize, b: &str, k: &str) -> bool {
+        self.sim.ups[i].bucket == b && self.sim.ups[i].key == k
     }
 
     fn op_mpu(&mut self, force_len: Option<usize>, force_n: Option<i32>) -> Option<String> {
@@ -600,8 +607,9 @@ impl Gen<'_> {
         let len = force_len.unwrap_or_else(|| self.size());
         let c = self.new_content(len);
         if let Some(i) = i {
+            let bound = self.bound(i, &b, &k);
             let up = &mut self.sim.ups[i];
-            if up.alive && up.owner == w && (1..=10000).contains(&n) {
+            if bound && up.alive && up.owner == w && (1..=10000).contains(&n) {
                 up.parts.insert(n, len);
             }
         }
@@ -660,8 +668,9 @@ impl Gen<'_> {
             })
         };
         if let (Some(i), Some(pl)) = (i, plen) {
+            let bound = self.bound(i, &b, &k);
             let up = &mut self.sim.ups[i];
-            if up.alive && up.owner == w && slen.is_some() {
+            if bound && up.alive && up.owner == w && slen.is_some() {
                 up.parts.insert(n, pl);
             }
         }
@@ -680,7 +689,7 @@ impl Gen<'_> {
         let (i, u) = self.upload()?;
         let (w, b, k) = self.upload_ctx(i);
         if let Some(i) = i {
-            if self.sim.ups[i].owner == w {
+            if self.sim.ups[i].owner == w && self.bound(i, &b, &k) {
                 self.sim.ups[i].alive = false;
             }
         }
@@ -704,6 +713,7 @@ impl Gen<'_> {
         let mut good = false;
         if self.clean {
             let i = i?;
+            let bound = self.bound(i, &b, &k);
             let up = &self.sim.ups[i];
             if !exact_ok || self.conflicts(&b, &k) {
                 return None;
@@ -714,7 +724,7 @@ impl Gen<'_> {
             // over an object that has metadata or recorded checksums)
             // a single small part unless the parts are big enough
             pl = format!("+{}", run.iter().map(|(n, _)| n.to_string()).collect::<Vec<_>>().join(","));
-            good = up.owner == w && self.sim.buckets.contains_key(&b);
+            good = up.owner == w && bound && self.sim.buckets.contains_key(&b);
         } else {
             if self.conflicts(&b, &k) {
                 return None;
@@ -738,7 +748,7 @@ impl Gen<'_> {
             self.sim.maybe.insert(dst.clone());
         }
         if let Some(i) = i {
-            if self.sim.ups[i].alive && self.sim.ups[i].owner == w {
+            if self.sim.ups[i].alive && self.sim.ups[i].owner == w && self.bound(i, &b, &k) {
                 let exact = pl == format!("+{}", run.iter().map(|(n, _)| n.to_string()).collect::<Vec<_>>().join(","));
                 // since 0096ef4 the real backend consumes the upload id only when the complete succeeds (an empty part list
                 // "succeeds" too); after a failed complete the upload stays and later operations keep addressing it
